@@ -4,8 +4,10 @@ current Generated/Sites.lean and the audit rules below.  Run it ONLY after re-au
 by hand: the whole point of the tie `Generated.sites = auditedSites` is that an unaudited change to an
 order/clock/environment site breaks the proof build."""
 import re, sys
-SRC = "/verif/lean/Apko/Generated/Sites.lean"
-OUT = "/verif/lean/Apko/Proofs/Lemmas/AuditedSites.lean"
+import os
+V = os.path.dirname(os.path.dirname(os.path.abspath(__file__)))
+SRC = V + "/lean/Apko/Generated/Sites.lean"
+OUT = V + "/lean/Apko/Proofs/Lemmas/AuditedSites.lean"
 
 # (function, substring of expression) -> (class, discharge)
 RULES = [
